@@ -114,7 +114,7 @@ CalcOperands == { <<Dim(3, "px", FALSE)>>, <<Dim(2, "rpx", FALSE)>>, <<Pct(4, FA
                   <<Num(8, FALSE)>> }      \* pool entry 8: a negative number, so that `- -1` is met
 CalcSums == { l \o <<Dl(op, TRUE)>> \o SetW(r, TRUE) : l \in CalcOperands, r \in CalcOperands, op \in {"+", "-"} }
        \cup { l \o <<Dl(op, w1)>> \o SetW(r, w2) : l \in CalcOperands, r \in CalcOperands, op \in {"*", "/"}, w1 \in BOOLEAN, w2 \in BOOLEAN }
-CalcWraps(e) == { <<Fn("calc", e, FALSE)>>, <<Fn("calc", <<Par(e, FALSE), Dl("*", TRUE), Num(2, TRUE)>>, FALSE)>>,
+CalcWraps(e) == { <<Fn("calc", e, FALSE)>>, <<Fn("CALC", e, FALSE)>>,      \* function names are ASCII case-insensitive <<Fn("calc", <<Par(e, FALSE), Dl("*", TRUE), Num(2, TRUE)>>, FALSE)>>,
                   <<Fn("calc", <<Fn("max", e \o <<Com(FALSE), Dim(3, "px", TRUE)>>, FALSE)>>, FALSE)>>,
                   <<Fn("translate", <<Fn("calc", e, FALSE), Com(FALSE), Num(1, TRUE)>>, FALSE)>> }
 FCalc(lazy) == { <<Rule(<<Dl(".", FALSE), I("a", FALSE)>>, <<Decl(p, v)>>)>> : v \in UNION { CalcWraps(e) : e \in CalcSums }, p \in {"width"} }
@@ -133,6 +133,9 @@ FTok(lazy) == { <<Rule(<<Dl(".", FALSE), I("a", FALSE)>>, <<Decl(p[1], p[2])>>)>
             <<"width", <<Fn("calc", <<Fn("var", <<I("--a", FALSE)>>, FALSE), Dl("+", TRUE), Fn("min", <<Dim(3, "px", FALSE), Com(FALSE), Dim(3, "rpx", TRUE)>>, TRUE)>>, FALSE)>>>>,
             <<"ab", <<I("a", FALSE), Dl(".", FALSE), I("b", FALSE), Num(6, TRUE)>>>>,
             <<"quotes", <<Str("~L~", FALSE), Str("~R~", TRUE)>>>>,
+            (* units that read like an exponent when pasted after the number: they need their escape kept *)
+            <<"w1", <<Dim(3, "e5", FALSE)>>>>, <<"w2", <<Dim(11, "e5", FALSE)>>>>, <<"w3", <<Dim(3, "E-2", FALSE)>>>>, <<"w4", <<Dim(11, "e-2", FALSE)>>>>,
+            <<"w5", <<Dim(3, "e", FALSE), Dim(11, "E", TRUE)>>>>, <<"w6", <<Dim(3, "ex", FALSE), Dim(3, "em", TRUE)>>>>,
             <<"filter", <<Fn("drop-shadow", <<Dim(2, "rpx", FALSE), Dim(2, "rpx", TRUE), Hx("000", TRUE)>>, FALSE)>>>> } }
         \cup { <<At("font-face", <<>>, "decls", <<Decl("unicode-range", <<I("U", FALSE), Num(27, FALSE)>>)>>)>>,
                <<At("charset", <<Str("utf-8", TRUE)>>, "stmt", <<>>), Rule(<<I("p", FALSE)>>, Red)>>,
